@@ -156,10 +156,42 @@ impl<K: SimKernel<D>, const D: usize> Monitor<K, D> for C11<K, D> {
                             findings.push(("wrong-visible-facets".into(), label.clone(), format!("find_visible_facets({q:?}) = {got:x?}, exact: {want:x?}")));
                         }
                     }
-                    if let Ok(n) = &r_near
-                        && n.is_some() != pos.strictly_outside()
-                    {
-                        findings.push(("wrong-nearest-facet".into(), label.clone(), format!("find_nearest_visible_facet({q:?}) = {n:?}, exact outside: {}", pos.strictly_outside())));
+                    if let Ok(n) = &r_near {
+                        if n.is_some() != pos.strictly_outside() {
+                            findings.push(("wrong-nearest-facet".into(), label.clone(), format!("find_nearest_visible_facet({q:?}) = {n:?}, exact outside: {}", pos.strictly_outside())));
+                        } else if let Some(i) = n {
+                            // the returned facet must be visible and have the closest centroid among the visible ones
+                            let coords = post.key_to_coords();
+                            let centroid_d2 = |cell: u64, opp: usize| -> Option<f64> {
+                                let c = post.cells.iter().find(|c| c.key == cell)?;
+                                let mut cen = vec![0.0f64; D];
+                                let mut n = 0.0;
+                                for (j, k) in c.verts.iter().enumerate() {
+                                    if j == opp {
+                                        continue;
+                                    }
+                                    let p = coords.get(k)?;
+                                    for a in 0..D {
+                                        cen[a] += p[a];
+                                    }
+                                    n += 1.0;
+                                }
+                                Some(cen.iter().zip(&q).map(|(c, x)| (c / n - x).powi(2)).sum())
+                            };
+                            let got = art.hull.get_facet(*i).map(|f| (f.cell_key().data().as_ffi(), f.facet_index() as usize));
+                            match got {
+                                Some(g) if pos.visible.contains(&g) => {
+                                    let best = pos.visible.iter().filter_map(|(c, o)| centroid_d2(*c, *o)).fold(f64::INFINITY, f64::min);
+                                    if let Some(d) = centroid_d2(g.0, g.1)
+                                        && best.is_finite()
+                                        && d > best * (1.0 + 1e-9) + 1e-300
+                                    {
+                                        findings.push(("nearest-facet-not-nearest".into(), label.clone(), format!("find_nearest_visible_facet({q:?}) returned facet {i} at squared centroid distance {d}, but a visible facet at {best} exists")));
+                                    }
+                                }
+                                _ => findings.push(("nearest-facet-not-visible".into(), label.clone(), format!("find_nearest_visible_facet({q:?}) returned facet {i}, which is not exactly visible from the point"))),
+                            }
+                        }
                     }
                     if let (Some(Ok(v)), Some(f)) = (&r_facet, art.hull.get_facet(0)) {
                         let key = (f.cell_key().data().as_ffi(), f.facet_index() as usize);
